@@ -139,12 +139,16 @@ structure Quirks where
   /-- the frames of a batch that follow a blocking pop that blocked are kept and executed when the client is
       unblocked (code: they are executed at once, while the client is blocked). -/
   deferBatchWhenBlocked : Bool
+  /-- the commands run by EXEC neither notify nor wake anybody; once `handle_exec` has finished, every key they
+      pushed to is served while it has both waiters and elements (code: blocked clients are woken after EACH queued
+      command, so a transaction's later commands see the list after a blocked client took its element). -/
+  execAtomic : Bool
 deriving DecidableEq, Repr
 
 /-- The tree before the first blocking repair.  What the tree does on a given run is read from the source by the
     translator (Gen/Blocking.lean) and confirmed over TCP by lib/c13.py. -/
-def Quirks.code : Quirks := ⟨false, false, false, false, false, false, false, false⟩
-def Quirks.fixed : Quirks := ⟨true, true, true, true, true, true, true, true⟩
+def Quirks.code : Quirks := ⟨false, false, false, false, false, false, false, false, false⟩
+def Quirks.fixed : Quirks := ⟨true, true, true, true, true, true, true, true, true⟩
 
 structure State where
   store : List (Key × Elem) := []
@@ -262,6 +266,21 @@ def dedupL : List Key → List Key
 /-- The keys a blocking pop registers on. -/
 def regKeys (q : Quirks) (keys : List Key) : List Key := if q.dedupKeys = true then dedupL keys else keys
 
+/-- `serve_key`: while the key has both a waiter and an element, notify the head waiter and carry the wake-up out. -/
+def serveKey (q : Quirks) (k : Key) : Nat → State → State
+  | 0, s => s
+  | n+1, s =>
+    if s.registry.any (keyIs k) && s.store.any (keyIs k) then serveKey q k n (wakeOne q (notify k s)) else s
+
+/-- The keys the queued commands push to, in order. -/
+def pushKeys : List Cmd → List Key
+  | [] => []
+  | .push _ k _ :: r => k :: pushKeys r
+  | _ :: r => pushKeys r
+
+def serveKeys (q : Quirks) (ks : List Key) (s : State) : State :=
+  ks.foldl (fun s k => serveKey q k s.registry.length s) s
+
 /-- The `if has_pending_wakeups() { process_wakeups() }` at the end of `process_normal_command`. -/
 def drain (q : Quirks) (s : State) : State :=
   if q.wakeAtPush = true then iter (wakeOne q) (if q.drainAll = true then s.wakeQ.length else wakeBatch) s else s
@@ -275,7 +294,8 @@ def dataCore (q : Quirks) (now : Nat) (c cid : Conn) (s : State) : Cmd → State
       let st' := pushElems op k vs s.store
       let s1 : State := { s with store := st', pushed := s.pushed ++ vs.map fun v => (k, v) }
       let s2 := emit s1 c (.int (listOf st' k).length)
-      notifyN (if q.notifyPerElement then vs.length else 1) k s2
+      if q.execAtomic = true ∧ cid = 0 then s2
+      else notifyN (if q.notifyPerElement then vs.length else 1) k s2
   | .pop op k =>
     match popElem op k s.store with
     | some (e, st') => emit { s with store := st' } c (.bulk e.1 e.2)
@@ -297,7 +317,7 @@ def dataCore (q : Quirks) (now : Nat) (c cid : Conn) (s : State) : Cmd → State
 
 /-- The handler, then the wake-ups it (or an earlier command) requested. -/
 def dataCmd (q : Quirks) (now : Nat) (c cid : Conn) (s : State) (cmd : Cmd) : State :=
-  drain q (dataCore q now c cid s cmd)
+  if q.execAtomic = true ∧ cid = 0 then dataCore q now c cid s cmd else drain q (dataCore q now c cid s cmd)
 
 /-- One frame of the batch (`process_frame`): MULTI / EXEC, queueing inside a transaction, else the handler. -/
 def topCmd (q : Quirks) (now : Nat) (c : Conn) (s : State) : Cmd → State
@@ -308,7 +328,8 @@ def topCmd (q : Quirks) (now : Nat) (c : Conn) (s : State) : Cmd → State
     if (s.conns c).inTx then
       let cmds := (s.conns c).queue
       let s1 := emit (setConn s c fun cs => { cs with inTx := false, queue := [] }) c (.arrHdr cmds.length)
-      cmds.foldl (dataCmd q now c 0) s1
+      let s2 := cmds.foldl (dataCmd q now c 0) s1
+      if q.execAtomic = true then serveKeys q (pushKeys cmds) s2 else s2
     else emit s c .err
   | cmd =>
     if (s.conns c).inTx then emit (setConn s c fun cs => { cs with queue := cs.queue ++ [cmd] }) c .queued
